@@ -11,16 +11,19 @@ from .core import SymInt, Unsupported, E
 from .data import SymBytes, lift
 
 
+_FD = [10]  # descriptor numbers are never reused across runs: a finalizer (file_wrapper.__del__) of an earlier
+#             run that closes its descriptor late must not hit an object of the current run
+
+
 class Net:
     def __init__(self):
         self.objs = {}  # fd -> object
-        self.next_fd = 10
         self.fault_hook = None  # (op, obj) -> errno or None
         self.log = []
 
     def new_fd(self, obj):
-        fd = self.next_fd
-        self.next_fd += 1
+        fd = _FD[0]
+        _FD[0] += 1
         self.objs[fd] = obj
         return fd
 
@@ -233,8 +236,9 @@ class OsShim:
 
     def dup(self, fd):
         obj = self.net.objs[fd]
-        nfd = self.net.new_fd(obj)  # alias: same object
-        return nfd
+        if isinstance(obj, SimPipeEnd):
+            return SimPipeEnd(self.net, obj.pipe, obj.kind).fd  # a second descriptor for the same pipe end
+        return self.net.new_fd(obj)
 
     def set_blocking(self, fd, flag):
         pass
